@@ -33,6 +33,9 @@ fn build_random(c: &RandCase) -> Circuit {
         2 => {
             b.clifford_t(c.p[4] as f32 / 20.0);
         }
+        3 => {
+            b.p_t(c.p[4] as f32 / 20.0).p_cz(c.p[1] as f32 / 20.0).with_cliffords();
+        }
         _ => {
             b.p_cnot(c.p[0] as f32 / 20.0)
                 .p_cz(c.p[1] as f32 / 20.0)
@@ -44,11 +47,48 @@ fn build_random(c: &RandCase) -> Circuit {
     b.build()
 }
 
+/// the same parameters described through a different sequence of builder calls
+fn build_random_alt(c: &RandCase) -> Circuit {
+    let mut b = Circuit::random();
+    // scrambled values first: the last call of each setter must win
+    b.depth(c.depth + 3).qubits(c.qubits + 1).p_cnot(0.9).p_t(0.7);
+    match c.preset % 4 {
+        1 => {
+            b.p_t(0.2).p_s(0.2).p_h(0.2).p_cz(0.2).p_cnot(0.2);
+        }
+        2 => {
+            // clifford_t(p) is documented as p_t(p) followed by with_cliffords()
+            b.p_cnot(0.0).p_t(c.p[4] as f32 / 20.0).with_cliffords();
+        }
+        3 => {
+            let (pt, pcz) = (c.p[4] as f32 / 20.0, c.p[1] as f32 / 20.0);
+            let p = (1.0 - pt - pcz) / 3.0;
+            b.p_cnot(p).p_cz(pcz).p_h(p).p_s(p).p_t(pt);
+        }
+        _ => {
+            b.p_t(c.p[4] as f32 / 20.0)
+                .p_s(c.p[3] as f32 / 20.0)
+                .p_h(c.p[2] as f32 / 20.0)
+                .p_cz(c.p[1] as f32 / 20.0)
+                .p_cnot(c.p[0] as f32 / 20.0);
+        }
+    }
+    b.qubits(c.qubits).depth(c.depth).seed(c.seed);
+    b.build()
+}
+
 fn check_random(c: &RandCase, obs: &mut Obs) -> Result<(), String> {
     let a = guarded("RandomCircuitBuilder::build", || build_random(c))?;
     let b = guarded("RandomCircuitBuilder::build", || build_random(c))?;
     if a != b {
         return Err("same seed and parameters gave two different circuits".into());
+    }
+    let alt = guarded("RandomCircuitBuilder::build", || build_random_alt(c))?;
+    if alt != a {
+        return Err(format!(
+            "the same seed and parameters given through a different sequence of builder calls (preset {}) gave a different circuit",
+            c.preset % 4
+        ));
     }
     if a.num_qubits() != c.qubits {
         return Err(format!("circuit has {} qubits, asked for {}", a.num_qubits(), c.qubits));
@@ -62,6 +102,11 @@ fn check_random(c: &RandCase, obs: &mut Obs) -> Result<(), String> {
             let pt = c.p[4] as f32 / 20.0;
             let p = (1.0 - pt) / 3.0;
             [p, 0.0, p, p, pt]
+        }
+        3 => {
+            let (pt, pcz) = (c.p[4] as f32 / 20.0, c.p[1] as f32 / 20.0);
+            let p = (1.0 - pt - pcz) / 3.0;
+            [p, pcz, p, p, pt]
         }
         _ => [
             c.p[0] as f32 / 20.0,
@@ -194,6 +239,23 @@ pub struct PgCase {
     pub min_w: usize,
     pub max_w: usize,
     pub denom: usize,
+    /// force min_w == max_w (the `weight(w)` shorthand then describes the same instance)
+    #[serde(default)]
+    pub fixed: bool,
+}
+
+/// the same instance through other builder calls: setters in another order after scrambled
+/// values, and the `weight(w)` shorthand when the range is a single weight
+fn build_pg_alt(c: &PgCase, shorthand: bool) -> Circuit {
+    let mut b = Circuit::random_pauli_gadget();
+    b.phase_denom(c.denom + 1).depth(c.depth + 2).qubits(c.qubits + 3);
+    if shorthand {
+        b.max_weight(c.max_w + 2).min_weight(1).weight(c.max_w);
+    } else {
+        b.weight(c.max_w + 1).max_weight(c.max_w).min_weight(c.min_w);
+    }
+    b.qubits(c.qubits).depth(c.depth).phase_denom(c.denom).seed(c.seed);
+    b.build()
 }
 
 fn build_pg(c: &PgCase) -> Circuit {
@@ -209,6 +271,7 @@ fn build_pg(c: &PgCase) -> Circuit {
 
 fn check_pg(c: &PgCase, obs: &mut Obs) -> Result<(), String> {
     let (min_w, max_w) = (c.min_w.min(c.max_w).min(c.qubits), c.max_w.max(c.min_w).min(c.qubits));
+    let min_w = if c.fixed { max_w } else { min_w };
     let c = PgCase {
         min_w,
         max_w,
@@ -218,6 +281,24 @@ fn check_pg(c: &PgCase, obs: &mut Obs) -> Result<(), String> {
     let b = guarded("RandomPauliGadgetCircuitBuilder::build", || build_pg(&c))?;
     if a != b {
         return Err("same seed and parameters gave two different circuits".into());
+    }
+    // weight 0 is outside the generator's documented range; everything else goes through the
+    // alternative entry points as well
+    if c.min_w >= 1 {
+        let alt = guarded("RandomPauliGadgetCircuitBuilder::build (setters in another order)", || build_pg_alt(&c, false))?;
+        if alt != a {
+            return Err("the same seed and parameters given through a different order of builder calls gave a different circuit".into());
+        }
+        if c.min_w == c.max_w {
+            obs.class("weight-shorthand");
+            let alt = guarded(&format!("RandomPauliGadgetCircuitBuilder::weight({})", c.max_w), || build_pg_alt(&c, true))?;
+            if alt != a {
+                return Err(format!(
+                    "weight({w}) gave a different circuit than min_weight({w}).max_weight({w}) for the same seed",
+                    w = c.max_w
+                ));
+            }
+        }
     }
     if a.num_qubits() != c.qubits {
         return Err("wrong qubit count".into());
@@ -361,7 +442,7 @@ pub fn def(ctx: &Ctx) -> PropertyDef {
     let t = ctx.tier;
     PropertyDef {
         id: "C19",
-        rule: "seeds x admissible parameters. Random circuits (2-8 qubits, depth 0-60, probability vectors incl. zeros and sums < 1, the uniform / clifford_t presets): build twice => equal; gate kinds only with non-zero probability, distinct in-range qubits, length <= depth (== depth when the probabilities sum to >= 1 with margin). Hidden shift (6-10 (12) qubits, depth 0-40, 0-3 CCZ): the exact state vector from the harness simulator has |<shift|C|0>|^2 == 1. Pauli gadgets (weights <= qubits, denominators 1-16): the gate list segments uniquely into L . pp . L^dagger with sorted distinct qubits of admissible weight, phase a non-zero multiple of pi/denominator, non-Clifford for even denominators >= 4. Equatorial stabiliser states (1-8 qubits, both backends): squared norm exactly 1 by the harness evaluator. Non-trivial = random circuit with >= 5 gates; hidden shift with >= 1 CCZ and a non-zero shift; gadget circuit with a non-empty basis-change layer; state with more edges than qubits.",
+        rule: "seeds x admissible parameters. Random circuits (2-8 qubits, depth 0-60, probability vectors incl. zeros and sums < 1, the uniform / clifford_t / with_cliffords presets): build twice => equal, and equal again when the same parameters are given through a different sequence of builder calls (scrambled values first, setters in another order, explicit probabilities instead of a preset, weight(w) instead of min_weight(w).max_weight(w)); gate kinds only with non-zero probability, distinct in-range qubits, length <= depth (== depth when the probabilities sum to >= 1 with margin). Hidden shift (6-10 (12) qubits, depth 0-40, 0-3 CCZ): the exact state vector from the harness simulator has |<shift|C|0>|^2 == 1. Pauli gadgets (weights <= qubits, denominators 1-16): the gate list segments uniquely into L . pp . L^dagger with sorted distinct qubits of admissible weight, phase a non-zero multiple of pi/denominator, non-Clifford for even denominators >= 4. Equatorial stabiliser states (1-8 qubits, both backends): squared norm exactly 1 by the harness evaluator. Non-trivial = random circuit with >= 5 gates; hidden shift with >= 1 CCZ and a non-zero shift; gadget circuit with a non-empty basis-change layer; state with more edges than qubits.",
         assumptions: vec!["harness simulator / evaluator (see selftest)"],
         sections: vec![
             Section::random(
@@ -398,14 +479,15 @@ pub fn def(ctx: &Ctx) -> PropertyDef {
                 "pauli-gadgets",
                 ctx.cases(20000, 400000),
                 || {
-                    (any::<u64>(), 1usize..=8, 0usize..=12, 0usize..=8, 0usize..=8, 1usize..=16).prop_map(
-                        |(seed, qubits, depth, min_w, max_w, denom)| PgCase {
+                    (any::<u64>(), 1usize..=8, 0usize..=12, 0usize..=8, 0usize..=8, 1usize..=16, prop_oneof![3 => Just(false), 1 => Just(true)]).prop_map(
+                        |(seed, qubits, depth, min_w, max_w, denom, fixed)| PgCase {
                             seed,
                             qubits,
                             depth,
                             min_w,
                             max_w,
                             denom,
+                            fixed,
                         },
                     )
                 },
